@@ -8,11 +8,10 @@ from checks import c14_cases as cc
 from checks import c14_gen
 
 META = {
-    "claimed": False,
     "harness_bins": ["c14"],
     "extract": "C14.v",
     "technique": "Coq proof about a token-level model of the AST printer and of the grammar (precedence-climbing parser parameterised by the operator table regenerated from grammar.lalrpop on every run); model tied to the Rust code by differential runs on generated ASTs (same token stream from the real printer + real lexer, same re-parsed tree); direct oracle on the implementation: parse -> print -> parse gives the same position-erased tree, printing is a fixpoint, layout width does not matter, evaluation is unchanged, over generated ASTs and every .ncl file of the repository under token mutation",
-    "level_text": "Theorems (coq/Props/C14.v, proofs in coq/Surface/RoundTrip.v): op_table_wf — the operator table generated from grammar.lalrpop/lexer.rs/primop.rs/pretty.rs on every run has what the round trip needs (each operator the printer emits is read back as the same primop with the same laziness, the arrow is the loosest operator and right-associative, prefix operators bind tighter than it, no operator text starts an atom); parse_print_core — for every table satisfying that check and every term t of the expression core (literals, variables, strings with interpolation, enum tags/variants, arrays, application, strict and lazy infix operators of every level, negation, %primop% applications, static access, imports, if, fun/let with variable patterns, annotations with base/contract/arrow/array types, records with simple fields), parse (print t) = Some t, hence print_fixpoint_core; multiline_delim_safe — for the percent count the printer chooses, the automaton of the lexer's multiline-string mode reads the printed characters back as exactly the chunks; refuting witnesses for each of the ten printer/parser defects of the pinned commit and their round trip in the model of the repaired code. The model printer mirrors pretty.rs case by case over the whole surface syntax (is_atom, parens_if, needs_parens_in_type_pos, pattern parenthesisation, quoting of identifiers, string style and percent count, number rendering, multiline_roundtrips/strip_indent); outside the proved fragment the round trip of the model is checked by execution only.",
+    "level_text": "Theorems (coq/Props/C14.v, proofs in coq/Surface/RoundTrip.v): op_table_wf — the operator table generated from grammar.lalrpop/lexer.rs/primop.rs/pretty.rs on every run has what the round trip needs (each operator the printer emits is read back as the same primop with the same laziness, the arrow is the loosest operator and right-associative, prefix operators bind tighter than it, no operator text starts an atom); parse_print_core — for every table satisfying that check and every term t of the expression core (literals, variables, strings with interpolation, enum tags/variants, arrays, application, strict and lazy infix operators of every level, negation, %primop% applications, static access, imports, if, fun/let with variable patterns, annotations with base/contract/arrow/array types, records with simple fields), parse (print t) = Some t, hence print_fixpoint_core; multiline_delim_safe — for the percent count the printer chooses, the automaton of the lexer's multiline-string mode reads the printed characters back as exactly the chunks; refuting witnesses for each of the ten printer/parser defects of the pinned commit and their round trip in the model of the repaired code. The model printer mirrors pretty.rs case by case over the whole surface syntax (is_atom, parens_if, needs_parens_in_type_pos, pattern parenthesisation, quoting of identifiers, string style and percent count, number rendering, multiline_roundtrips/strip_indent); outside the proved fragment the full statements (C14_full_parse_print, C14_full_image_closed: for every t with parser_image t = true, parse (print t) = Some t; every tree the parser returns satisfies parser_image) are type-checked definitions whose instances are checked by execution only, with parser_image (coq/Surface/Image.v) an executable predicate over the whole AST evaluated on every parsed program and every generated tree; core_in_image — the proved fragment lies inside parser_image.",
     "level_note": "Trusted: Coq kernel; extraction (ExtrOcamlBasic, ExtrOcamlNativeString); the translator checks/c14_gen.py (syntactic, fails closed); the hand-written model's reading of pretty.rs and of the grammar, validated only by the correspondence runs; the s-expression glue on both sides; logos/LALRPOP generated code, malachite number parsing/printing, the `pretty` layout engine. String escapes and identifiers are opaque tokens (C13). The formatter (topiary) is external and not covered.",
 }
 
@@ -531,7 +530,7 @@ def run(ck):
                            "inputs: corpus/C14, every .ncl under /repo, token-level mutants of them (delete/duplicate/swap/replace/insert/parenthesise, number literals replaced by long ones), seeded random ASTs inside the parser's image over the whole surface syntax (depth <= 5) and a stream outside of it for the model ties; "
                            "non-trivial = source > 20 chars / tree with >= 6 nodes; distinct by exact text")
     ck.coverage["partial"] = ("parse_print/print_fixpoint are proved for the expression core; match and patterns, record metadata, piecewise/quoted/interpolated field paths, open records, includes, let metadata, forall/record/enum/dict types, types in term position, %enum/embed% are covered by the executed model round trip and the direct oracle only; parser_image closed under parse is not proved (it is checked on every parsed program by execution); "
-                              "topiary formatter not covered; symbolic strings are only parsed by the implementation (never printed); include identifiers that are metadata keywords, identifiers named `or` in patterns and InputFormat::from_path corner cases are not generated")
+                              "topiary formatter not covered; symbolic strings are only parsed by the implementation (never printed); include identifiers that are metadata keywords and identifiers named `or` in patterns are not generated; the model parser accepts a superset of the real one (type-variable kind mismatches, features disabled at compile time), so parser_image is the image of the model parser and the generator respects the kind discipline by construction")
     ck.trusted += ["extraction: ExtrOcamlBasic + ExtrOcamlNativeString", "harness bin c14 (s-expression dump/builder, token regrouping)",
                    "ocaml/c14/driver.ml (s-expression glue)", "translator checks/c14_gen.py", "generator checks/c14_cases.py (SplitMix64, VERIF_SEED)"]
     ck.assumptions += ["string escapes and identifier lexing are opaque (C13)", "malachite prints/parses decimal numbers exactly",
